@@ -112,7 +112,7 @@ def main(tier, seed, cases=None):
         return 2
     items = j["strings"] + j["lists"]
     chk.evaluations = items
-    for k in ("alphabet", "max_len", "single_strings", "exhaustive_items", "random_items", "bash_words", "bash_scripts", "split_ok"):
+    for k in ("alphabet", "max_len", "single_strings", "exhaustive_items", "random_items", "bash_words", "bash_scripts", "split_ok", "path_quotes"):
         chk.extra[k] = j[k]
     chk.extra["bounded_part"] = "all strings of length <= %d over the alphabet + all lists of <=3 one-symbol strings (exhaustive)" % j["max_len"]
     chk.samples = [{"item": s} for s in j["samples"]]
